@@ -6,6 +6,8 @@ pat=${1:-C*}; workers=${2:-8}
 root=${PSWEEP_DIR:-/tmp/psweep}
 rm -rf "$root"; mkdir -p "$root"
 ls -d /verif/seeded/$pat/ | xargs -n1 basename > "$root/all.txt"
+# PSWEEP_IDS="C05-19 C12-18 ..." sweeps exactly those
+if [ -n "$PSWEEP_IDS" ]; then echo $PSWEEP_IDS | tr ' ' '\n' > "$root/all.txt"; fi
 for i in $(seq 1 $workers); do
   rsync -a --exclude .git --exclude replays --exclude evidence /verif/ "$root/verif-$i/"
   mkdir -p "$root/verif-$i/evidence" "$root/verif-$i/replays"
